@@ -102,7 +102,7 @@ def run_gir(src):
         return "lowering-crash", [], "%s: %s" % (type(e).__name__, str(e)[:200]), None
     if not rows:
         return "no-gir", [], "", None
-    it = girsem.Interp(rows, "python", max_steps=200000)
+    it = girsem.Interp(rows, "python", max_steps=60000)
     try:
         it.run_unit()
     except girsem.GirRuntimeError as e:
